@@ -34,7 +34,7 @@ def log(msg: str) -> None:
 
 # --------------------------------------------------------------------------- schedule sampling
 
-CWD_KINDS = ["proj", "work", "S", "src", "srcsub", "out", "elsewhere", "ro"]
+CWD_KINDS = ["proj", "work", "S", "src", "srcsub", "src_testdir", "out", "elsewhere", "ro"]
 INVOCATIONS = ["console", "dash_m", "pythonpath0", "pythonpath1", "pythonpath2", "pythonpath3"]
 SRC_SPELLINGS = ["rel", "trail", "dot", "detour", "symlink", "reltrail"]
 OUT_SPELLINGS = ["rel", "trail", "dot", "detour", "symlink", "reltrail", "nested"]
